@@ -148,7 +148,7 @@ class AwaitablePayload:
     def __await__(self) -> Any:
         from .loop import CTX as _ctx
         _ctx.foreign.append(f"the library awaited the payload item {self!r}")
-        return self
+        return ("what awaiting the payload gives", self.k)  # (plain: an "await until plain" loop ends here)
         yield  # pragma: no cover
 
 
